@@ -166,7 +166,7 @@ theorem not_applicable_never_matches (c : Ctx) (o : Obj) (a : TAttr) (as : List 
     have hn : ¬ (o.otype ∈ r.appliesTo) := by
       intro hm; simp at happ; exact happ hm
     unfold filterOne
-    simp [Ctx.isApplicable, Ctx.rule, hr, hn, bind, Except.bind, pure, Except.pure]
+    simp [Ctx.isApplicable, hr, hn, bind, Except.bind, pure, Except.pure]
   unfold matchesObj
   simp only [filterObj, bind, Except.bind, h1]
   rfl
